@@ -45,13 +45,26 @@ def one(arg):
     pool = [0, 0, 1, max(0, thr - 1), thr, thr + 1, 2 * thr, 3]
     for v in leaves: counts[v] = rng.choice(pool)
     if sum(counts.values()) == 0: counts[leaves[0]] = thr + 1
+    exact_max = (seed % 6 == 0) and thr >= 1
+    if exact_max:
+        # the most frequent value sits EXACTLY on min_freq
+        counts = {v: min(c, thr) for v, c in counts.items()}; counts[leaves[0]] = thr
     rows = [v for v, c in counts.items() for _ in range(c)]
     nan_rows = rng.choice([0, 0, 2]); unknown = rng.choice([[], [], ['zz1'], ['zz1', 'zz2']])
     rows += [np.nan] * nan_rows + [u for u in unknown for _ in range(rng.choice([1, 2]))]
+    if exact_max:
+        n = len(rows) if len(rows) >= int(round(thr / mf)) else int(round(thr / mf))
+        spare = [v for v in leaves if counts[v] < thr]
+        while len(rows) < n and spare:
+            v = rng.choice(spare); rows.append(v); counts[v] += 1; spare = [u for u in leaves if counts[u] < thr]
+        while len(rows) < n: rows.append(np.nan)
     while len(rows) < n: rows.append(rng.choice([v for v in leaves if counts[v] > 0]))
     rng.shuffle(rows); n = len(rows)
     handling = rng.choice(['raise', 'drop'])
     X = pd.DataFrame({'f': pd.Series(rows, dtype=object), 'other': range(n)}); y = pd.Series([i % 2 for i in range(n)])
+    idx_kind = seed % 3
+    if idx_kind == 1: X.index = [i * 2 + 100 for i in range(n)]; y.index = X.index           # an index that is not 0..n-1 (e.g. rows of a train/test split)
+    if idx_kind == 2: X.index = ['r%03d' % i for i in range(n)]; y.index = X.index
     lit = dict(levels=levels, rows=[None if isnan(v) else v for v in rows], min_freq=mf, unknown_handling=handling)
     def rec(clause, ok, msg, extra=None): recs.append((clause, bool(ok), dict(lit, **(extra or {})) if not ok else dict(seed=seed), msg))
     try:
@@ -72,7 +85,8 @@ def one(arg):
         return recs
     if r[0] != 'ok':
         rec('ChainedDiscretizer.fit#raises.only_AssertionError', False, 'fit: %s' % r[0]); return recs
-    if 'f' not in d.features: return recs
+    if 'f' not in d.features:
+        rec('ChainedDiscretizer.fit#post.feature_discretized_when_a_value_reaches_min_freq', False, 'largest modality has frequency %.4f >= min_freq %.2f but the feature was dropped' % (max(v for k, v in freq.items() if k != '__NAN__'), mf)); return recs
     order = d.values_orders['f']
     present = order.values()
     rec('ChainedDiscretizer.fit#post.every_hierarchy_value_still_present', all(v in present for v in all_values), 'missing from values_orders: %r' % ([v for v in all_values if v not in present],))
@@ -84,6 +98,19 @@ def one(arg):
             if own: rec('ChainedDiscretizer.fit#post.frequent_value_keeps_a_group_of_its_own', list(order.content[v]) == [v], 'group of %r is %r' % (v, order.content[v]), dict(value=v))
         if g != v:
             rec('ChainedDiscretizer.fit#post.rare_value_merged_into_an_ancestor', g in ancestors(levels, v), 'value %r merged into %r, ancestors are %r' % (v, g, ancestors(levels, v)), dict(value=v))
+    # reference model of the whole merge (from the property text): level by level, every member of the level whose CURRENT frequency among all rows is below
+    # min_freq moves to its parent; frequencies are re-counted after each level
+    parent = [{c: p for p, ch in lvl.items() for c in ch} for lvl in levels]
+    lab_rows = [('__NAN__' if isnan(v) or v in unknown else v) for v in rows]; final = {v: v for v in all_values}
+    for li, lvl in enumerate(levels):
+        cnt = {}
+        for l in lab_rows: cnt[l] = cnt.get(l, 0) + 1
+        members = set(parent[li]) | set(lvl)
+        move = {m: parent[li].get(m, m) for m in members if cnt.get(m, 0) / n < mf}
+        lab_rows = [move.get(l, l) for l in lab_rows]
+        final = {v: move.get(g, g) for v, g in final.items()}
+    wrong = [(v, order.get_group(v), final[v]) for v in all_values if order.get_group(v) != final[v]]
+    rec('ChainedDiscretizer.fit#post.grouping_equals_reference_model', not wrong, '(value, fitted leader, expected leader): %r' % (wrong[:5],))
     # an intermediate ancestor group that is itself rarer than min_freq is merged further up
     out = outcome(lambda: d.transform(X))
     if out[0] != 'ok':
